@@ -35,11 +35,14 @@ def cfg_pass(pool, tier, seed):
     res = pool.map(cfgpass.work_chunk, tasks, chunksize=1)
     rnd = []
     if tier == 'quick':
-        rnd = [(n, 25, seed * 17 + i, 'plain') for i, n in enumerate((5, 6, 7, 8, 9, 10, 12, 14))]
+        rnd = [(n, 25, seed * 17 + i, 'plain') for i, n in enumerate((9, 10, 12, 14))]
+        rnd += [(n, 60, seed * 17 + 50 + i, 'plain') for i, n in enumerate((5, 5, 6, 6, 7, 7, 8, 8))]
+        rnd += [(n, 60, seed * 17 + 70 + i, 'plain3') for i, n in enumerate((4, 5, 6, 7))]
         rnd += [(n, 20, seed * 17 + 100 + i, p) for i, (n, p) in enumerate(((4, 'bytecode'), (6, 'bytecode'), (4, 'ast'), (6, 'ast')))]
     else:
         rnd = [(n, 300, seed * 17 + i, 'plain') for i, n in enumerate((5, 6, 7, 8, 9, 10, 11, 12, 13, 14, 15, 16, 17, 18) * 2)]
         rnd += [(n, 200, seed * 17 + 100 + i, p) for i, (n, p) in enumerate(((4, 'bytecode'), (6, 'bytecode'), (8, 'bytecode'), (4, 'ast'), (6, 'ast'), (8, 'ast')))]
+        rnd += [(n, 400, seed * 17 + 70 + i, 'plain3') for i, n in enumerate((4, 5, 6, 7, 8, 9))]
     res2 = pool.map(cfgpass.work_random, rnd, chunksize=1)
     d = {'exhaustive_nmax': nmax, 'closed_exhaustive': sum(r['closed'] for r in res), 'nontrivial_exhaustive': sum(r['nontrivial'] for r in res),
          'random': sum(r['closed'] for r in res2), 'nontrivial_random': sum(r['nontrivial'] for r in res2),
@@ -103,7 +106,7 @@ def cfg_property(explanation, extra_assumptions=(), level='other'):
         cov['distinct_nontrivial'] = d['nontrivial_exhaustive'] + d['nontrivial_random']
         cov['rule'] = ('all labelled closed CFGs with <= %d nodes (<= 2 ordered distinct successors, one entry, all reachable, all reach an exit), '
                        'each run through the stage prefixes join / join+loop / join+loop+branch with the property contract evaluated after every stage; '
-                       'plus %d seeded random closed CFGs of sizes %s incl. bytecode/AST payloads; non-trivial = has a cycle or a two-way block; '
+                       'plus %d seeded random closed CFGs of sizes %s incl. bytecode/AST payloads (and, for C03 only, graphs with three-way input blocks); non-trivial = has a cycle or a two-way block; '
                        'plus run-time evaluation of the function contracts on %d generated calls'
                        % (d['exhaustive_nmax'], d['random'], d['random_sizes'], fz['evaluations']))
         cov['exhaustive'] = True
